@@ -525,6 +525,8 @@ func heapFragments(i int) []string {
 		"function P" + n + "(){this.x=" + n + "}P" + n + ".prototype.m=function(){return this.x};H.p" + n + "=new P" + n + "();H.q" + n + "=Object.create(H.p" + n + ",{z:{value:2,enumerable:true}});",
 		"H.b" + n + "=function(a,b){return [this.k,a&&a.obj,b]}.bind({k:" + n + "},{obj:1},2);",
 		"H.bb" + n + "=function(a){return a}.bind(null).bind({z:1},{deep:[H]});",
+		"var gcount" + n + "=0;H.bg" + n + "=function(x){gcount" + n + "+=(x|0);return gcount" + n + "+':'+(typeof H)}.bind(null);",
+		"H.bc" + n + "=(function(){var cnt=0;return function(x){cnt+=(x|0);return cnt}.bind({})})();",
 		"H.bm" + n + "=function(cfg,x){cfg.n+=(x|0);return cfg.n+':'+this.t}.bind({t:" + n + "},{n:1});",
 		"H.bt" + n + "=function(x){this.acc=(this.acc|0)+(x|0);return this.acc}.bind({acc:0});",
 		"H.args" + n + "=(function(a,b){return arguments})(1,{x:2},3);",
@@ -585,6 +587,7 @@ var observeFragments = []string{
 	"for(var k in H){try{if(k.slice(0,2)==='dt'){rec(k+':'+H[k].getTime());H[k].setTime(H[k].getTime()+1)}}catch(e){rec('E'+e)}}",
 	"for(var k in H){try{if(k.slice(0,2)==='nf')rec(k+':'+H[k](4)+':'+H[k].name)}catch(e){rec('E'+e)}}",
 	"try{rec(typeof gg1+':'+(typeof gf1==='function'?gf1():'-'))}catch(e){rec('E'+e)}",
+	"try{var gs=[];for(var gi=0;gi<12;gi++){if(typeof this['gcount'+gi]==='number')gs.push(gi+'='+this['gcount'+gi])}rec(gs.join())}catch(e){rec('E'+e)}",
 	"for(var k in H){try{var fo=H[k];if(fo&&typeof fo==='object'&&k.slice(0,2)==='og'){var fl=[];for(var fk in fo){fl.push(fk);if(fl.length===1){fo.zz=1;delete fo.b}}rec(k+':'+fl.join()+':'+Object.keys(fo).join())}}catch(e){rec('E'+e)}}",
 	"for(var k in H){try{if(k.slice(0,2)==='mx'&&k.charAt(2)!=='c')rec(k+':'+H[k](50)+':'+H[k](7))}catch(e){rec('E'+e)}}",
 	"for(var k in H){try{if(k.slice(0,2)==='wa')rec(k+':'+H[k]()+','+H['wb'+k.slice(2)]())}catch(e){rec('E'+e)}}",
